@@ -163,3 +163,50 @@ package store
 //@   ensures [apply-only-after-wait-applied] applierCalls > old(applierCalls) ==> appliedWaitOK > old(waitOK) && appliedIdxMatch
 //@   ensures [at-most-one-apply] applierCalls <= old(applierCalls) + 1
 //@   ensures [answer-without-apply-is-error] applierCalls == old(applierCalls) && result1 == nil ==> result != nil && result.RegionError != nil
+
+// C24 merge kernel. The catalog operations are trusted leaves whose effect is recorded:
+// what the latest UpdateRegion installed and which region the latest RemoveRegion
+// dropped. handleMergeCommand is then proved to (1) install, under the target's id and
+// with the epoch version raised by one, exactly the union of the two ADJACENT ranges
+// (right or left neighbour, bounded or unbounded), (2) remove the source whenever it
+// extended the target, and (3) refuse regions that are not adjacent without touching
+// the catalog.
+//@ ghost var regionUpdates Int
+//@ ghost var regionRemovals Int
+//@ ghost var lastUpdID uint64
+//@ ghost var lastUpdVersion uint64
+//@ ghost var lastUpdStart ByteSeq
+//@ ghost var lastUpdEnd ByteSeq
+//@ ghost var lastRemovedID uint64
+//@ func (*Store).UpdateRegion
+//@   trusted
+//@   ghost regionUpdates = (result == nil ? regionUpdates + 1 : regionUpdates)
+//@   ghost lastUpdID = (result == nil ? meta.ID : lastUpdID)
+//@   ghost lastUpdVersion = (result == nil ? meta.Epoch.Version : lastUpdVersion)
+//@   ghost lastUpdStart = (result == nil ? bs(meta.StartKey) : lastUpdStart)
+//@   ghost lastUpdEnd = (result == nil ? bs(meta.EndKey) : lastUpdEnd)
+//@   modifies nothing
+//@ func (*Store).RemoveRegion
+//@   trusted
+//@   ghost regionRemovals = (result == nil ? regionRemovals + 1 : regionRemovals)
+//@   ghost lastRemovedID = (result == nil ? regionID : lastRemovedID)
+//@   modifies nothing
+//@ func (*Store).StopPeer
+//@   trusted
+//@   modifies nothing
+// (frames of the three catalog operations: their heap effects are confined to the store's
+// catalog, peers and manifest, none of which handleMergeCommand reads afterwards)
+
+//@ spec func adjRight(t manifest.RegionMeta, s manifest.RegionMeta) bool = len(t.EndKey) > 0 && bs(t.EndKey) == bs(s.StartKey)
+//@ spec func adjLeft(t manifest.RegionMeta, s manifest.RegionMeta) bool = len(s.EndKey) > 0 && bs(s.EndKey) == bs(t.StartKey)
+//@ func (*Store).handleMergeCommand
+//@   property C24
+//@   exit [one-update-of-the-target] result == nil ==> regionUpdates == old(regionUpdates) + 1 && lastUpdID == parentMeta.ID && lastUpdVersion == parentMeta.Epoch.Version + 1
+//@   exit [only-neighbours-merge] result == nil ==> adjRight(parentMeta, sourceMeta) || adjLeft(parentMeta, sourceMeta)
+//@   exit [union-right-start] result == nil && adjRight(parentMeta, sourceMeta) ==> lastUpdStart == bs(parentMeta.StartKey)
+//@   exit [union-right-end] result == nil && adjRight(parentMeta, sourceMeta) ==> lastUpdEnd == bs(sourceMeta.EndKey)
+//@   exit [union-left-start] result == nil && !adjRight(parentMeta, sourceMeta) ==> lastUpdStart == bs(sourceMeta.StartKey)
+//@   exit [union-left-end] result == nil && !adjRight(parentMeta, sourceMeta) ==> lastUpdEnd == bs(parentMeta.EndKey)
+//@   exit [source-removed-with-the-extension] result == nil ==> regionRemovals == old(regionRemovals) + 1 && lastRemovedID == sourceMeta.ID
+//@   ensures [no-removal-without-extension] regionRemovals > old(regionRemovals) ==> regionUpdates > old(regionUpdates)
+//@   ensures [not-adjacent-or-unknown-touches-nothing] regionUpdates == old(regionUpdates) ==> regionRemovals == old(regionRemovals)
